@@ -1,6 +1,7 @@
 import Driver.Proto
 import PolyVerif.Model.Readers
 import PolyVerif.Model.PlyFile
+import PolyVerif.Model.C14Large
 
 namespace Driver.C14
 open PolyVerif PolyVerif.Readers
@@ -152,6 +153,55 @@ partial def summary? : List String → Summary → Option (Summary × List Strin
       summary? (rest.drop n) { s with prims := s.prims ++ rest.take n }
   | _, _ => none
 
+
+/-! oracle: the SIZE-ONLY cut laws of Model/C14Large.lean (proved from the full reader models in Props/C14Large.lean)
+    evaluated on the sizes of a cut of a LARGE file and the implementation's verdict class; a class that is neither
+    `err` nor a well-formed `ok:` (panic, timeout, ok:nil-mesh, …) makes the predicate false -/
+
+/-- "err" ↦ some none; "ok:a:b:…" ↦ some (some [a, b, …]); anything else ↦ none -/
+def largeClass? (cls : String) : Option (Option (List Nat)) :=
+  if cls == "err" then some none
+  else match cls.splitOn ":" with
+    | "ok" :: rest => (rest.mapM String.toNat?).map some
+    | _ => none
+
+def bit? (s : String) : Option Bool := if s == "1" then some true else if s == "0" then some false else none
+
+def largeCut (fmt : String) (args : List String) : Option Bool := do
+  let nums ← (args.dropLast).mapM String.toNat?
+  let cls ← args.getLast?
+  match largeClass? cls with
+  | none => pure false
+  | some v =>
+    match fmt, nums with
+    | "stl", [n, len, k] =>
+      match v with
+      | none => pure (C14Large.stlCutOk n len k none)
+      | some [c] => pure (C14Large.stlCutOk n len k (some c))
+      | _ => pure false
+    | "splat", [n, len, k] =>
+      match v with
+      | some [c, f] => pure (decide (f ≤ 1) && C14Large.splatCutOk n len k c (f == 1))
+      | _ => pure false
+    | "ply", [hlen, vcount, vsize, fcount, fbytes, len, k] =>
+      -- class ok:<vertices>:<indices>; a point cloud has one index per vertex, a triangle mesh three per face
+      match v with
+      | none => pure (C14Large.plyCutOk hlen vcount vsize fcount fbytes len k none)
+      | some [a, b] =>
+        if fcount == 0 then pure (b == a && C14Large.plyCutOk hlen vcount vsize fcount fbytes len k (some (a, 0)))
+        else pure (b % 3 == 0 && C14Large.plyCutOk hlen vcount vsize fcount fbytes len k (some (a, b / 3)))
+      | _ => pure false
+    | "pts", [n, fpp, clen, tw, len, j, t, sp, k] =>
+      -- class ok:<points>:<has intensity>:<has colour>
+      let vv : Option C14Large.Verdict := match v with
+        | none => some none
+        | some [c, i, col] => if i == (if fpp > 3 then 1 else 0) && col == (if fpp > 6 then 1 else 0) then some (some c) else none
+        | _ => none
+      match vv with
+      | none => pure false
+      | some vv => pure (decide (sp ≤ 1) && C14Large.ptsCutOk n fpp clen tw len j t (sp == 1) k vv)
+    | _, _ => none
+
 def handle (op : String) (args : List String) : Option String :=
   match op, args with
   | "c14.stl.cuts", [hex, spec] => runCuts stlClass hex spec
@@ -174,6 +224,10 @@ def handle (op : String) (args : List String) : Option String :=
       match rest with
       | [hex] => (hexBytes? hex).map (plyClass h)
       | _ => none
+  | "c14.holds.large_cut_stl", _entry :: rest => (largeCut "stl" rest).map boolStr
+  | "c14.holds.large_cut_splat", _entry :: rest => (largeCut "splat" rest).map boolStr
+  | "c14.holds.large_cut_ply", _entry :: rest => (largeCut "ply" rest).map boolStr
+  | "c14.holds.large_cut_pts", _entry :: rest => (largeCut "pts" rest).map boolStr
   | "c14.holds.disk_agrees", [_fmt, _entry, _k, memCls, diskCls] =>
       -- the format's on-disk Load helper on a temp file holding the same bytes: same verdict class as the in-memory reader
       some (boolStr (memCls == diskCls))
